@@ -29,7 +29,12 @@ SUBJECT = {
     "alg": "/repo/src/psyclone/tests/test_files/dynamo0p3/1_single_invoke.f90",
     "base": "testkern",
 }
-STALL_S = 300            # a blocked handshake longer than this is a machinery failure
+# A handshake that stays blocked for STALL_SLICES waits of SLICE_S seconds is a
+# machinery failure.  Counted in slices, not as one long timeout: a step of the
+# VM's clock (observed here: all waiting threads of several processes timing out
+# at the same moment) then ends one slice early instead of failing the replay.
+SLICE_S = 5.0
+STALL_SLICES = 60
 
 
 class Stall(Exception):
@@ -147,6 +152,7 @@ class Scheduler:
         self.writers = {}        # file name -> set of runs
         self.bytes = {}          # file name -> bytes seen after the previous step
         self.result = {}         # run -> (res, text, exception repr)
+        self.aborted = False     # the replay was given up: blocked runs end
 
     # ---- run side
     def current(self):
@@ -172,9 +178,14 @@ class Scheduler:
             self.pending[run] = call
             self.state[run] = "blocked"
             self.cv.notify_all()
+            slices = 0
             while self.grant != run:
-                if not self.cv.wait(STALL_S):
-                    raise Stall(f"run {run} never released before {call}")
+                if self.aborted:
+                    raise Stall(f"replay given up while run {run} waited before {call}")
+                if not self.cv.wait(SLICE_S):
+                    slices += 1
+                    if slices >= STALL_SLICES:
+                        raise Stall(f"run {run} never released before {call}")
             self.grant = None
             self.state[run] = "running"
         event = {"run": run, "call": call, "name": name, "flags": flags,
@@ -207,11 +218,20 @@ class Scheduler:
         self._wait_quiet(run)
         return thr
 
+    def abort(self):
+        '''End the runs that are still blocked (after a failed replay).'''
+        with self.cv:
+            self.aborted = True
+            self.cv.notify_all()
+
     def _wait_quiet(self, run):
         with self.cv:
+            slices = 0
             while not (self.grant is None and self.state[run] != "running"):
-                if not self.cv.wait(STALL_S):
-                    raise Stall(f"run {run} neither blocked nor ended")
+                if not self.cv.wait(SLICE_S):
+                    slices += 1
+                    if slices >= STALL_SLICES:
+                        raise Stall(f"run {run} neither blocked nor ended")
 
     def release(self, run):
         '''Let `run` perform the call it is blocked before and everything up to
@@ -469,6 +489,7 @@ def replay(case, info, refs, blob=None):
     outdir = core.mktemp("pv-c29-out-")
     real_os, had_open = psyGen.os, "open" in vars(psyGen)
     real_mkstemp = tempfile.mkstemp
+    sched = None
     try:
         set_config(outdir, scheme)
         psys = {run: make_psy(info, ver[run - 1], blob) for run in range(1, nruns + 1)}
@@ -522,6 +543,9 @@ def replay(case, info, refs, blob=None):
             events.append(sched.release(run))
             if len(events) > 200:
                 raise Stall("more than 200 file-system calls in one replay")
+        for run in range(1, nruns + 1):
+            if run not in sched.result:
+                raise Stall(f"run {run} ended without a verdict")
         fin = []
         for run in range(1, 4):
             res, used, msg = sched.result.get(run, ("off", -1, ""))
@@ -531,6 +555,8 @@ def replay(case, info, refs, blob=None):
                 "sched": case["sched"], "fs0": fs0, "stray0": stray0,
                 "events": events, "fin": fin, "resched": skipped}
     finally:
+        if sched is not None:
+            sched.abort()
         tempfile.mkstemp = real_mkstemp
         psyGen.os = real_os
         if not had_open and "open" in vars(psyGen):
